@@ -20,7 +20,8 @@ VERIF = os.path.dirname(HERE)
 LEAN = os.path.join(VERIF, "lean")
 REPO = os.environ.get("VERIF_REPO", "/repo")
 DRIVER = os.path.join(LEAN, ".lake/build/bin/driver")
-EVIDENCE = os.path.join(VERIF, "evidence")
+# (the seeded-change runners point VERIF_EVIDENCE elsewhere so that runs on a changed tree never touch the committed files)
+EVIDENCE = os.environ.get("VERIF_EVIDENCE") or os.path.join(VERIF, "evidence")
 REPLAYS = os.path.join(EVIDENCE, "replays")
 ALLOWED_AXIOMS = {"propext", "Classical.choice", "Quot.sound"}
 FORBIDDEN_RX = re.compile(
@@ -87,6 +88,23 @@ def shrink_list(items, still_fails, budget=400):
                 break
             n = min(len(items), n * 2)
     return items
+
+
+def run_under_O(module, func, *args):
+    """call harness.props.<module>.<func>(*args) in a child interpreter started with -O (assert statements and
+    __debug__ blocks are compiled away there) and return its JSON result"""
+    import subprocess
+    code = ("import sys, json, os; sys.path.insert(0, %r); os.chdir(%r); import warnings; warnings.simplefilter('ignore');"
+            "from harness import common; common.configure_logging();"
+            "import importlib; m = importlib.import_module('harness.props.%s');"
+            "print('RESULT ' + json.dumps(getattr(m, %r)(*json.loads(sys.stdin.read()))))" % (VERIF, VERIF, module, func))
+    env = dict(os.environ)
+    p = subprocess.run([sys.executable, "-O", "-c", code], input=json.dumps(list(args)).encode(), stdout=subprocess.PIPE,
+                       stderr=subprocess.PIPE, env=env, timeout=600)
+    for line in p.stdout.decode("utf-8", "replace").splitlines():
+        if line.startswith("RESULT "):
+            return json.loads(line[7:])
+    raise RuntimeError("child interpreter (-O) failed: %s" % p.stderr.decode("utf-8", "replace")[-400:])
 
 
 class log_level(object):
